@@ -314,6 +314,11 @@ void StatementBuilder::decl_init_list(uint32_t num)
     vector<string> labels;
     for (uint32_t i = 0; i < num; i++) {
         type_t type = fields[i].get_type();
+        if (type.get_kind() != LABEL) {  // after a syntax error a field may not have gone through decl_field_init()
+            types.push_back(type);
+            labels.emplace_back();
+            continue;
+        }
         types.push_back(type[0]);
         labels.push_back(type.get_label(0));
         fields[i].set_type(type[0]);
